@@ -117,6 +117,9 @@ def run(chk):
                     dd_ = tempfile.mkdtemp(prefix="c05_")
                     pt.export(os.path.join(dd_, "pt.hdf5"))
                     pt = oqupy.import_process_tensor(os.path.join(dd_, "pt.hdf5"), "simple" if storage.endswith("simple") else "file")
+                if it % 2 == 0:
+                    from harness.c03 import look_at
+                    look_at(pt)              # reading a process tensor through its accessors (transformed or not) changes nothing
                 out = np.array(quiet(oqupy.compute_dynamics, oqupy.System(Hh), initial_state=rr, process_tensor=pt, progress_type="silent").states)
                 if storage == "file-backed":
                     pt.remove()
